@@ -1,4 +1,5 @@
 import PsV.Proofs.GlamFlat
+import Mathlib.Data.List.Dedup
 /-!
 # C17: which index tuples `slicemultiply` / `grideval` list
 
@@ -247,4 +248,31 @@ theorem gridEval_lists (dims : List (Dim α)) (coef : Int → α) (coords : List
       simpa [List.getD_eq_getElem?_getD, hd, hlen] using this
 
 end
+/-! ## how many distinct index tuples a tensor can list -/
+
+/-- a duplicate-free list of valid index tuples is no longer than the dense size `Π ranges` -/
+theorem nodup_idx_length_le (R : List Nat) (l : List (List Nat)) (hn : l.Nodup)
+    (hv : ∀ idx ∈ l, IdxIn idx R) : l.length ≤ PsV.Permute.prodL R := by
+  have hinj : ∀ x ∈ l, ∀ y ∈ l, PsV.Permute.flat R x = PsV.Permute.flat R y → x = y := by
+    intro x hx y hy h
+    rw [← PsV.Permute.digits_flat x R (hv x hx), ← PsV.Permute.digits_flat y R (hv y hy), h]
+  have hn' : (l.map (PsV.Permute.flat R)).Nodup := List.Nodup.map_on hinj hn
+  have hsub : (l.map (PsV.Permute.flat R)).toFinset ⊆ Finset.range (PsV.Permute.prodL R) := by
+    intro q hq
+    simp only [List.mem_toFinset, List.mem_map] at hq
+    obtain ⟨x, hx, rfl⟩ := hq
+    exact Finset.mem_range.mpr (PsV.Permute.flat_lt x R (hv x hx))
+  have := Finset.card_le_card hsub
+  rwa [List.toFinset_card_of_nodup hn', List.length_map, Finset.card_range] at this
+
+/-- the number of distinct index tuples a well-formed tensor lists (= the number of rows of the n-tuple
+after CHOLMOD has merged duplicates) is at most the dense size -/
+theorem listed_count_le {α : Type} (s : NdSparse α) (hs : s.WF) :
+    (s.entries.map (·.1)).dedup.length ≤ PsV.Permute.prodL s.ranges := by
+  apply nodup_idx_length_le _ _ (List.nodup_dedup _)
+  intro idx hidx
+  rw [List.mem_dedup, List.mem_map] at hidx
+  obtain ⟨e, he, rfl⟩ := hidx
+  exact hs e he
+
 end PsV
